@@ -362,11 +362,31 @@ var dictCheck = &core.Check{Name: "c05/dict", Quick: 3000, Thorough: 250000, Fn:
 			}
 		}
 	}
+	ks0, vs0 := d.Items()
 	cell, err := d.Marshal()
 	if err != nil {
 		return fmt.Errorf("%s with %d keys: Marshal: %v", kind.name, len(model), err)
 	}
 	h1 := cellHash(cell)
+	// encoding does not change the dictionary it encodes: lookups and listings still agree with the model
+	// and a second encoding gives the same cell
+	if ks1, vs1 := d.Items(); len(ks1) != len(ks0) {
+		return fmt.Errorf("%s: the dictionary lists %d entries after it was encoded, %d before", kind.name, len(ks1), len(ks0))
+	} else {
+		for i := range ks0 {
+			if !ks0[i].Equal(ks1[i]) || vs0[i] != vs1[i] {
+				return fmt.Errorf("%s: entry %d of the dictionary is %s -> %d after it was encoded, %s -> %d before", kind.name, i, ks1[i], vs1[i], ks0[i], vs0[i])
+			}
+		}
+	}
+	for k, v := range model {
+		if got, ok := d.Get(bitsFromString(k)); !ok || got != v {
+			return fmt.Errorf("%s: Get(%s) after the dictionary was encoded = %d,%v; model %d", kind.name, k, got, ok, v)
+		}
+	}
+	if cell2, err := d.Marshal(); err != nil || cellHash(cell2) != h1 {
+		return fmt.Errorf("%s with %d keys: a second Marshal of the same dictionary gives another cell (%v)", kind.name, len(model), err)
+	}
 	// (a) tongo decodes its own encoding: same pairs, ascending key-bit order
 	back := d.Fresh()
 	cell.ResetCounters()
@@ -577,3 +597,11 @@ func TestEnum(t *testing.T) {
 }
 
 func TestReplay(t *testing.T) { core.Replay(t, dictCheck, augCheck, inlineCheck) }
+
+func bitsFromString(s string) ref.Bits {
+	b := make(ref.Bits, len(s))
+	for i := range s {
+		b[i] = s[i] == '1'
+	}
+	return b
+}
